@@ -79,6 +79,78 @@ func genLabels(r *rand.Rand, ident bool, ttl bool) []KV {
 	return out
 }
 
+var ttlValues = []string{"7", "0", "abc", "40000", "-1", "+30", "32767", "", "1_0", "7", "30", "365"}
+
+// withTTL inserts a __ttl_days__ label; nonFinal: at a position that is not the last one (a label follows it), so that a
+// callee that compacts the caller's label buffer in place shifts the labels behind it
+func withTTL(r *rand.Rand, l []KV, nonFinal bool) []KV {
+	for _, kv := range l {
+		if string(kv.K) == "__ttl_days__" {
+			return l
+		}
+	}
+	pos := r.Intn(len(l) + 1)
+	if nonFinal && len(l) > 0 {
+		pos = r.Intn(len(l))
+	}
+	out := append([]KV{}, l[:pos]...)
+	out = append(out, KV{"__ttl_days__", Str(pick(r, ttlValues))})
+	return append(out, l[pos:]...)
+}
+
+// ttlMulti counts the label buffers of the body that carry a __ttl_days__ label in a non-final position AND are handed
+// to the onEntries callback more than once (a remote-write series whose samples straddle a flush of the running point
+// counter; an Influx metric line with two or more numeric fields): the inputs on which a callee that rewrites the
+// caller's label buffer shows
+func ttlMulti(c *Case) int {
+	nonFinal := func(l []KV, extra int) bool {
+		for i, kv := range l {
+			if string(kv.K) == "__ttl_days__" && i < len(l)-1+extra {
+				return true
+			}
+		}
+		return false
+	}
+	n := 0
+	switch c.Proto {
+	case "prw":
+		points := 0
+		for _, s := range c.Body.Prw {
+			calls, open := 0, 0
+			for range s.Samples {
+				points++
+				open++
+				if points >= flushLimit {
+					calls++
+					points, open = 0, 0
+				}
+			}
+			if open > 0 {
+				calls++
+			}
+			if calls >= 2 && nonFinal(s.Labels, 0) {
+				n++
+			}
+		}
+	case "influx":
+		for _, l := range c.Body.Influx {
+			num, msg := 0, false
+			for _, f := range l.Fields {
+				if f.Kind == "int" || f.Kind == "uint" || f.Kind == "float" {
+					num++
+				}
+				if string(f.Name) == "message" {
+					msg = true
+				}
+			}
+			if !msg && num >= 2 && nonFinal(l.Tags, 1) {
+				n++
+			}
+		}
+	}
+	return n
+}
+
 var floats = []float64{0, 1, -1, 2.5, 0.1, 1e300, 5e-324, -2.5e-7, 123456789, 1e21, 3.141592653589793, 42, math.MaxFloat64, math.Copysign(0, -1)}
 
 func genFloat(r *rand.Rand) float64 {
@@ -104,7 +176,7 @@ func genTs(r *rand.Rand, spread int) int64 {
 	return r.Int63n(20*day) - 10*day // around the epoch, both signs
 }
 
-func sp(s string) *Str { x := Str(s); return &x }
+func sp(s string) *Str        { x := Str(s); return &x }
 func fp64(v float64) *float64 { return &v }
 
 var lines = []string{"hello", "", "GET /index.html 200", "a\"b\\c", "multi\nline", "ünicöde ☃", "level=info msg=\"x\"", "{\"json\":true}"}
@@ -204,6 +276,10 @@ func genLokiBig(r *rand.Rand, c *Case, kind int) {
 		}
 		for i := 0; total < want; i++ {
 			s := LStream{Labels: []KV{{"app", Str(fmt.Sprintf("big%d", i))}, {"job", "j"}}}
+			if r.Intn(3) == 0 {
+				s.Labels = withTTL(r, s.Labels, true)
+				flag(c, "ttl-label")
+			}
 			ne := 1 + r.Intn(3)
 			for j := 0; j < ne; j++ {
 				l := fmt.Sprintf("s%d-e%d-", i, j) + strings.Repeat("x", thresholdBytes/4+r.Intn(thresholdBytes/8+1))
@@ -218,6 +294,10 @@ func genLokiBig(r *rand.Rand, c *Case, kind int) {
 	want := thresholdBytes + thresholdBytes/2 + r.Intn(thresholdBytes/2+1)
 	for i := 0; total < want; i++ {
 		s := LStream{Labels: []KV{{"app", Str(fmt.Sprintf("m%d", i%17))}}}
+		if i%17 < 6 && r.Intn(2) == 0 {
+			s.Labels = withTTL(r, append(s.Labels, KV{"job", "j"}), true)
+			flag(c, "ttl-label")
+		}
 		ne := 70 + r.Intn(30)
 		for j := 0; j < ne; j++ {
 			l := fmt.Sprintf("l%d-", j) + strings.Repeat("y", 520+r.Intn(400))
@@ -233,6 +313,9 @@ func genPrw(r *rand.Rand, c *Case, kind int) {
 		s := PSeries{Labels: []KV{{"__name__", Str(pick(r, []string{"up", "http_requests_total", "go:gc", "9bad"}))}, {"instance", Str(fmt.Sprintf("i%d", i))}}}
 		if r.Intn(3) == 0 {
 			s.Labels = append(s.Labels, genLabels(r, false, true)...)
+		}
+		if kind != 0 && r.Intn(2) == 0 {
+			s.Labels = withTTL(r, s.Labels, r.Intn(4) != 0)
 		}
 		t := int64(1700000000000) + r.Int63n(1000000)
 		s.Samples = []PSample{}
@@ -263,6 +346,9 @@ func genPrw(r *rand.Rand, c *Case, kind int) {
 			}
 			s := mk(i, n)
 			s.Labels = []KV{{"i", Str(fmt.Sprintf("%d", i))}}
+			if i == flushLimit-1 || r.Intn(50) == 0 {
+				s.Labels = withTTL(r, append(s.Labels, KV{"job", "j"}), true)
+			}
 			c.Body.Prw = append(c.Body.Prw, s)
 		}
 	case 2: // the running point counter crosses 1000 inside some series
@@ -280,6 +366,17 @@ func genPrw(r *rand.Rand, c *Case, kind int) {
 			a = 1 + r.Intn(flushLimit-2)
 		}
 		c.Body.Prw = append(c.Body.Prw, mk(0, a), mk(1, flushLimit-a), mk(2, 1+r.Intn(5)))
+	case 7: // smallest body whose one series is handed to onEntries twice: flushLimit+1..+3 samples, the label in front of the others
+		c.Class = "ttl-label-across-flush"
+		s := mk(0, flushLimit+1+r.Intn(3))
+		s.Labels = []KV{{"__name__", "up"}, {"__ttl_days__", Str(pick(r, []string{"7", "30", "abc", "0"}))}, {"instance", "i0"}}
+		if r.Intn(2) == 0 {
+			s.Labels = []KV{{"__ttl_days__", Str(pick(r, []string{"7", "365"}))}, {"__name__", "up"}}
+		}
+		c.Body.Prw = append(c.Body.Prw, s)
+		if r.Intn(2) == 0 {
+			c.Body.Prw = append(c.Body.Prw, mk(1, 1+r.Intn(3)))
+		}
 	case 5: // the 1000th point is the first of several samples of the second series
 		c.Class = "flush-mid-series-999+k"
 		c.Body.Prw = append(c.Body.Prw, mk(0, flushLimit-1), mk(1, 2+r.Intn(4)))
@@ -310,6 +407,16 @@ func genInflux(r *rand.Rand, c *Case) {
 				v = strings.Repeat("t", 95+r.Intn(20))
 			}
 			l.Tags = append(l.Tags, KV{Str(k), Str(v)})
+		}
+		if r.Intn(4) == 0 {
+			// the tag is never the last label of a metric line: __name__ is appended behind the tags
+			l.Tags = withTTL(r, l.Tags, false)
+			for j := range l.Tags {
+				if string(l.Tags[j].K) == "__ttl_days__" && l.Tags[j].V == "" {
+					l.Tags[j].V = "14" // line protocol has no empty tag values
+				}
+			}
+			flag(c, "ttl-tag")
 		}
 		l.Ts = genTs(r, r.Intn(2)) / c.Body.Precision
 		if r.Intn(4) == 0 {
@@ -424,6 +531,17 @@ func genOKVs(r *rand.Rand, max int, c *Case) []OKV {
 	out := []OKV{}
 	for j := r.Intn(max + 1); j > 0; j-- {
 		kv := OKV{K: Str(pick(r, otlpKeys))}
+		if r.Intn(14) == 0 {
+			kv.K = "__ttl_days__"
+			flag(c, "ttl-attr")
+			if r.Intn(2) == 0 {
+				kv.V = OVal{Kind: "int", I: int64(r.Intn(400))}
+			} else {
+				kv.V = OVal{Kind: "str", S: Str(pick(r, ttlValues))}
+			}
+			out = append(out, kv)
+			continue
+		}
 		switch r.Intn(12) {
 		case 0:
 			kv.V = OVal{Kind: "bool", B: r.Intn(2) == 0}
@@ -482,7 +600,7 @@ func genOtlp(r *rand.Rand, c *Case) {
 }
 
 func reserved(i int) bool {
-	return i%200 == 3 || i%400 == 9 || i%1000 == 501 || i%100 == 51 || i%40 == 2
+	return i%200 == 3 || i%400 == 9 || i%1000 == 501 || i%100 == 51 || i%40 == 2 || i%50 == 31
 }
 
 // genHistory draws a HISTORY: 2..5 bodies decoded one after another in this process (same parser objects, and for
@@ -518,6 +636,9 @@ func genHistory(r *rand.Rand, start int, n int) []Case {
 			if !dup {
 				l = append(l, KV{Str(k), Str(pick(r, []string{"prod", "dev", "a", "b-1", "x y"}))})
 			}
+		}
+		if r.Intn(4) == 0 {
+			l = withTTL(r, l, true)
 		}
 		return l
 	}
@@ -618,6 +739,9 @@ func gen(r *rand.Rand, i int) Case {
 	case i%40 == 2:
 		c.Proto = "prw"
 		genPrw(r, &c, []int{2, 3, 4, 6}[r.Intn(4)])
+	case i%50 == 31:
+		c.Proto = "prw"
+		genPrw(r, &c, 7)
 	default:
 		switch r.Intn(14) {
 		case 0, 1, 2:
